@@ -198,7 +198,9 @@ def run_driver(drv, script, trace, seed=1, leak_every=0, timeout=20, wall=3600, 
         e.update(env)
     errlog = trace + ".stderr"
     t0 = time.time()
+    abort_time = 0.0
     while skip < ncases:
+        t_it = time.time()
         cmd = [drv, "--script", script, "--out", trace, "--seed", str(seed), "--skip", str(skip),
                "--keys", os.path.join(VERIF, "harness/keys"), "--tmp", os.path.join(WORK, "tmp"),
                "--timeout", str(timeout)] + list(extra)
@@ -215,6 +217,7 @@ def run_driver(drv, script, trace, seed=1, leak_every=0, timeout=20, wall=3600, 
             raise Infra("driver usage/script error, see " + errlog + ":\n" + open(errlog).read()[-1500:])
         # aborted: find the last Case index in the trace, make sure an Abort event is there
         aborts += 1
+        abort_time += time.time() - t_it
         last_n, has_abort = -1, False
         with open(trace, "rb") as f:
             f.seek(0, 2)
@@ -234,11 +237,12 @@ def run_driver(drv, script, trace, seed=1, leak_every=0, timeout=20, wall=3600, 
             if tail and not tail[-1].endswith("}"):
                 f.write("\n")
             if not has_abort:
-                f.write(json.dumps({"e": "Abort", "case": "?", "opi": -1, "why": "died-rc%d" % r.returncode}) + "\n")
+                f.write(json.dumps({"e": "Abort", "case": "?", "opi": -1, "why": "died-rc%d" % r.returncode, "inlib": 1}) + "\n")
         if last_n < skip:
             raise Infra("driver died before its first case (rc=%d), see %s" % (r.returncode, errlog))
         skip = last_n + 1
-        if aborts > 60:
+        if aborts > 60 or (aborts >= 3 and abort_time > 120):
+            # (or it hangs: every hang costs a watchdog period)
             # the tree under test dies all the time: what has been seen is reported, the remaining cases of this
             # shard are recorded as not executed (a Case marker with no operation) so that the bookkeeping adds up
             ids = [json.loads(l)[0] for l in open(script)]
